@@ -146,3 +146,20 @@ Example c15_failing_calls_example :
   | _ => False
   end.
 Proof. vm_compute. repeat split; reflexivity. Qed.
+
+(** ** The tie of the model's state to the source (regenerated by translator/rust2gen.py on every run).
+    The model's reader is the immutable record [mp4reader] (ftyp, moov, moofs, emsgs, tracks, size) plus the stream; a track is
+    [mp4track] (trak, trafs, moof_offsets, default_sample_duration); the muxer's state is [twriter] / [mwriter].  The determinism and
+    history-independence theorems above are about THIS state.  The source's structs have exactly these fields, and the crate uses no
+    interior mutability or global state ([Cell], [RefCell], [Mutex], atomics, [static mut], [thread_local!], ...): the only hits of the
+    scan are the [BufReader] of the convenience function [read_mp4] in src/lib.rs.  A cache or cursor added to one of these structs
+    breaks this lemma: the model's state space is no longer the code's. *)
+Lemma state_is_the_models :
+  Tables.struct_fields =
+    [ ("Mp4Reader", ["reader"; "ftyp"; "moov"; "moofs"; "emsgs"; "tracks"; "size"]);
+      ("Mp4Track", ["trak"; "trafs"; "moof_offsets"; "default_sample_duration"]);
+      ("Mp4TrackWriter", ["trak"; "sample_id"; "fixed_sample_size"; "is_fixed_sample_size"; "chunk_samples"; "chunk_duration";
+                          "chunk_buffer"; "samples_per_chunk"; "duration_per_chunk"]);
+      ("Mp4Writer", ["writer"; "tracks"; "mdat_pos"; "timescale"; "duration"]) ]%string
+  /\ Tables.interior_mutability = [ ("src/lib.rs", "BufReader"); ("src/lib.rs", "BufReader"); ("src/lib.rs", "BufReader") ]%string.
+Proof. split; reflexivity. Qed.
